@@ -113,16 +113,17 @@ class StructCore(object):
         in the case of a structure with variable-length fields
         that have been unpacked.
         """
-        A = self.align_value()
+        psize = self.__dict__.get("_psize", 0)
+        A = self.align_value(psize)
         sz = 0
         for f in self.fields:
             # adjust current size with alignment constraints:
             # and add field size:
             if self.union is False and not self.packed:
-                sz = f.align(sz)
+                sz = f.align(sz, psize)
             if f.instance is None:
                 continue
-            fsz = f.size()
+            fsz = f.size(psize)
             if fsz==float('Infinity'):
                 continue
             if self.union is False:
@@ -174,6 +175,8 @@ class StructCore(object):
                     self._v.__dict__.update(value)
             if self.union is False:
                 offset += f.size(psize)
+        # remember the pointer size so that len(self) agrees with it:
+        self.__dict__["_psize"] = psize
         return self
 
     def pack(self, data=None, psize=0):
